@@ -378,7 +378,7 @@ def c03(ctx):
     if ctx.quick:
         jobs = crash_jobs(ctx, "c03", 16, 100, 0, 2, 9) + crash_jobs(ctx, "c03", 6, 40, 0, 2, 9, first=400, keypad=2600)
     else:
-        jobs = crash_jobs(ctx, "c03", 48, 250, 0, 3, 20) + crash_jobs(ctx, "c03", 12, 120, 0, 3, 16, first=400, keypad=2600)
+        jobs = crash_jobs(ctx, "c03", 32, 200, 0, 3, 14) + crash_jobs(ctx, "c03", 8, 100, 0, 3, 12, first=400, keypad=2600)
     agg = Agg().add(runner.run_jobs(jobs))
     return runner.finish(
         "C03", "fault_enumeration", ctx.tier, ctx.seed, ctx.t0, agg,
@@ -673,10 +673,10 @@ def c10(ctx):
     if ctx.quick:
         plan = [("tsan", k, 6 + k % 3, 2500) for k in range(14)] + [("asan", 100 + k, 6, 4000) for k in range(4)]
     else:
-        plan = [("tsan", k, 6 + k % 3, 6000) for k in range(300)] + [("asan", 1000 + k, 8, 8000) for k in range(60)]
+        plan = [("tsan", k, 6 + k % 3, 6000) for k in range(160)] + [("asan", 1000 + k, 8, 8000) for k in range(32)]
         try:
             build.build_lib("ctsan")
-            plan += [("ctsan", 5000 + k, 6 + k % 3, 6000) for k in range(120)]
+            plan += [("ctsan", 5000 + k, 6 + k % 3, 6000) for k in range(64)]
         except build.BuildError:
             pass
     logdir = os.path.join(ctx.scratch, "sanlogs")
@@ -804,7 +804,7 @@ def c11(ctx):
         plan = [("rel", db, 5, 48, 0) for db in range(3)] + [("asan", 10, 12, 96, 0)]
         plan = [(fl, db, n, st, ex, range(n) if fl == "rel" else range(1)) for fl, db, n, st, ex in plan]
     else:
-        plan = [("rel", db, 16, 1, 1, range(16)) for db in range(2)] + [("rel", db, 16, 6, 0, range(16)) for db in range(2, 6)] + \
+        plan = [("rel", db, 16, 1, 1, range(16)) for db in range(1, 2)] + [("rel", db, 16, 6, 0, range(16)) for db in (0, 2, 3)] + \
             [("asan", 10 + db, 16, 8, 0, range(4)) for db in range(2)]
     for flavour, db, nshards, stride, exhaustive, shards in plan:
         for k in shards:
@@ -825,7 +825,7 @@ def c11(ctx):
         "C11", "fault_enumeration", ctx.tier, ctx.seed, ctx.t0, agg,
         rule="generated databases (several tables over >=3 levels, small blocks, snappy/bloom variants, live WAL, MANIFEST); "
              "one alteration per case: each bit flip, byte:=00/ff, truncation, zero-filled 512-byte sector at every byte of "
-             "footer/index/metaindex/filter/trailers and a stride over data bytes (thorough: every byte of two databases, stride 6 over four more) of every table, "
+             "footer/index/metaindex/filter/trailers and a stride over data bytes (thorough: every byte of one database, stride 6 over three more) of every table, "
              "WAL, MANIFEST and CURRENT; tables under paranoid_checks+verify_checksums: get/scan correct or error status; "
              "WAL/MANIFEST/CURRENT: contents = fold of the whole batches whose marker is present; distinct = (file kind, "
              "region, alteration kind) classes",
@@ -1029,9 +1029,9 @@ def c17(ctx):
                 J("rel", "replay", 0, 240, 10) + J("asan", "replay", 5000, 16, 2) +
                 crash_jobs(ctx, "c05", 6, 50, 0, 1, 0, first=700))
     else:
-        jobs = (J("rel", "edit", 0, 327680, 16) + J("asan", "edit", 500000, 4800, 16) + J("rel", "varint", 0, 65536, 32) +
-                J("asan", "varintq", 0, 1024, 4) + J("rel", "replay", 0, 9600, 32) + J("asan", "replay", 50000, 640, 16) +
-                crash_jobs(ctx, "c05", 48, 200, 0, 2, 16, first=700))
+        jobs = (J("rel", "edit", 0, 163840, 16) + J("asan", "edit", 500000, 2400, 16) + J("rel", "varint", 0, 65536, 32) +
+                J("asan", "varintq", 0, 1024, 4) + J("rel", "replay", 0, 4800, 32) + J("asan", "replay", 50000, 320, 16) +
+                crash_jobs(ctx, "c05", 24, 150, 0, 2, 10, first=700))
     agg = Agg().add(runner.run_jobs(jobs))
     c = agg.counts
     extras = {k: v for k, v in c.items() if k.startswith("c17_")}
@@ -1075,7 +1075,7 @@ def c18(ctx):
     if ctx.quick:
         jobs = J("asan", "direct", 0, 240000, 10) + J("asan", "db", 0, 2400, 6) + J("rel", "direct", 1000000, 100000, 1)
     else:
-        jobs = (J("asan", "direct", 0, 6400000, 64) + J("asan", "db", 0, 38400, 64) +
+        jobs = (J("asan", "direct", 0, 3200000, 64) + J("asan", "db", 0, 19200, 64) +
                 J("rel", "direct", 100000000, 1600000, 8) + J("rel", "db", 1000000, 12800, 8))
     agg = Agg().add(runner.run_jobs(jobs))
     c = agg.counts
